@@ -10,8 +10,8 @@ echo "== existing tests with change"
 cargo test --offline --lib 2>&1 | grep -E "^test result" ; cargo test --offline --doc 2>&1 | grep -E "^test result"
 echo "== demo with change"
 cargo test --offline --test seed_demo 2>&1 | grep -E "^test result"
-git stash push -q -- src
+git diff -- src > "$W/.seed.patch"; git checkout -q -- src
 echo "== demo without change"
 cargo test --offline --test seed_demo 2>&1 | grep -E "^test result"
-git stash pop -q
+git apply "$W/.seed.patch"; rm -f "$W/.seed.patch"
 git diff --stat -- src | tail -1
